@@ -38,8 +38,11 @@ theorem sps_count_byte (n : Nat) (h : n < 32) :
 theorem lsm_byte (x : UInt8) (h : x < 4) : ((0xfc : UInt8) ||| (x &&& 0x03)) &&& 0x03 = x := by
   revert h; revert x; apply forall_u8; decide +kernel
 
-/-- Every configuration record in the domain unmarshals from its marshalled bytes to an equal value. -/
-theorem record_roundtrip (r : Record) (h : RecordWF r) : recordUnmarshal (recordMarshal r) = ok r := by
+/-- Every configuration record in the domain unmarshals from its marshalled bytes — followed by ANY
+trailing bytes, which the reader ignores (that is where a conformant writer puts the High-profile block) —
+to an equal value. -/
+theorem record_roundtrip_tail (r : Record) (h : RecordWF r) (tail : Bytes) :
+    recordUnmarshal (recordMarshal r ++ tail) = ok r := by
   obtain ⟨hp, hl, hs, hpp, hsps, hpps⟩ := h
   obtain ⟨hc1, hc2⟩ := sps_count_byte r.sps.length hs
   have hpn : (UInt8.ofNat r.pps.length).toNat = r.pps.length := by
@@ -49,10 +52,12 @@ theorem record_roundtrip (r : Record) (h : RecordWF r) : recordUnmarshal (record
   simp only [recordMarshal, recordUnmarshal, List.cons_append, List.nil_append, List.append_assoc]
   rw [hc1, hc2, readSets_setsMarshal r.sps _ hsps]
   simp only [Res.bind_ok]
-  have h2 := readSets_setsMarshal r.pps [] hpps
-  rw [List.append_nil] at h2
-  rw [hpn, h2]
+  rw [hpn, readSets_setsMarshal r.pps tail hpps]
   simp only [Res.bind_ok, Res.pure_eq, lsm_byte r.lsm1 hl, hprof]
+
+theorem record_roundtrip (r : Record) (h : RecordWF r) : recordUnmarshal (recordMarshal r) = ok r := by
+  have := record_roundtrip_tail r h []
+  rwa [List.append_nil] at this
 
 /-- Every length-prefixed sample, for each NAL length size 1..4, round-trips. -/
 theorem sample_roundtrip (n : Nat) (_h1 : 1 ≤ n) (_h4 : n ≤ 4) (xs : List Nalu)
@@ -60,10 +65,11 @@ theorem sample_roundtrip (n : Nat) (_h1 : 1 ≤ n) (_h4 : n ≤ 4) (xs : List Na
     sampleUnmarshal n (sampleMarshal n xs) = ok xs :=
   sampleLoop_sampleMarshal n xs _ h (Nat.le_refl _)
 
-/-- The marshalled record is byte for byte the ISO/IEC 14496-15 §5.2.4.1.1 layout, reserved bits included. -/
-theorem record_is_spec (r : Record) (h : RecordWF r) (hv : r.version = 1) :
+/-- The marshalled record is byte for byte the ISO/IEC 14496-15 §5.2.4.1.1 layout up to and including the
+picture parameter sets, reserved bits included — for every profile. -/
+theorem record_is_spec_base (r : Record) (h : RecordWF r) (hv : r.version = 1) :
     recordMarshal r =
-      Spec.Avc.record (UInt8.ofNat r.profile) r.compat r.level r.lsm1.toNat
+      Spec.Avc.recordBase (UInt8.ofNat r.profile) r.compat r.level r.lsm1.toNat
         (r.sps.map naluMarshal) (r.pps.map naluMarshal) := by
   obtain ⟨_, hl, hs, _, _, _⟩ := h
   have e1 : (0xfc : UInt8) ||| (r.lsm1 &&& 0x03) = UInt8.ofNat (252 + r.lsm1.toNat) := by
@@ -79,18 +85,63 @@ theorem record_is_spec (r : Record) (h : RecordWF r) (hv : r.version = 1) :
     induction ns with
     | nil => rfl
     | cons x xs ih => simp [setsMarshal, setMarshal, Spec.Avc.paramSets, ih]
-  simp only [recordMarshal, Spec.Avc.record, hv, e1, e2, sets, List.length_map]
+  simp only [recordMarshal, Spec.Avc.recordBase, hv, e1, e2, sets, List.length_map]
 
-/-- Records written by an independent conformant writer (spec layout, NAL units written per
-ISO/IEC 14496-10 §7.3.1) are read back to the same values — and re-marshalling reproduces the bytes
-(canonical round trip). -/
-theorem spec_record_read (r : Record) (h : RecordWF r) (hv : r.version = 1) :
+/-- `record_is_spec`, PARTIAL: the whole record is the spec's for every profile OTHER than the four High
+profiles (100, 110, 122, 144). For those the 2012 edition appends chroma format, bit depths and the SPS
+extensions, which this library neither stores nor writes — see `high_profile_ext_witness` (known finding K6:
+the values live in the SPS, which the library does not parse, so no small safe repair exists). -/
+theorem record_is_spec_partial (r : Record) (h : RecordWF r) (hv : r.version = 1)
+    (hprof : Spec.Avc.needsExt (UInt8.ofNat r.profile) = false) :
+    recordMarshal r =
+      Spec.Avc.record (UInt8.ofNat r.profile) r.compat r.level r.lsm1.toNat
+        (r.sps.map naluMarshal) (r.pps.map naluMarshal) none ∧
+    Spec.Avc.ExtConformant (UInt8.ofNat r.profile) none := by
+  refine ⟨?_, by simp [Spec.Avc.ExtConformant, hprof]⟩
+  simp only [Spec.Avc.record, List.append_nil]
+  exact record_is_spec_base r h hv
+
+/-- Negative witness (K6): for a High profile EVERY conformant encoding is at least four bytes longer than
+what the library marshals — the prescribed block is missing, whatever its values. -/
+theorem high_profile_ext_witness (r : Record) (h : RecordWF r) (hv : r.version = 1)
+    (ext : Option Spec.Avc.HighExt) (hprof : Spec.Avc.needsExt (UInt8.ofNat r.profile) = true)
+    (hc : Spec.Avc.ExtConformant (UInt8.ofNat r.profile) ext) :
+    (recordMarshal r).length + 4 ≤
+      (Spec.Avc.record (UInt8.ofNat r.profile) r.compat r.level r.lsm1.toNat
+        (r.sps.map naluMarshal) (r.pps.map naluMarshal) ext).length ∧
+    recordMarshal r ≠
+      Spec.Avc.record (UInt8.ofNat r.profile) r.compat r.level r.lsm1.toNat
+        (r.sps.map naluMarshal) (r.pps.map naluMarshal) ext := by
+  have hb := record_is_spec_base r h hv
+  cases ext with
+  | none => simp [Spec.Avc.ExtConformant, hprof] at hc
+  | some e =>
+    have hlen : (recordMarshal r).length + 4 ≤
+        (Spec.Avc.record (UInt8.ofNat r.profile) r.compat r.level r.lsm1.toNat
+          (r.sps.map naluMarshal) (r.pps.map naluMarshal) (some e)).length := by
+      simp only [Spec.Avc.record, ← hb, List.length_append, Spec.Avc.extBytes, List.length_cons, List.length_nil]
+      omega
+    refine ⟨hlen, ?_⟩
+    intro heq
+    rw [← heq] at hlen
+    omega
+
+/-- Records written by an independent conformant writer — any profile, with the High-profile block when the
+profile calls for it, NAL units written per ISO/IEC 14496-10 §7.3.1 — are read back to the same values. -/
+theorem spec_record_read (r : Record) (h : RecordWF r) (hv : r.version = 1) (ext : Option Spec.Avc.HighExt) :
+    recordUnmarshal (Spec.Avc.record (UInt8.ofNat r.profile) r.compat r.level r.lsm1.toNat
+      (r.sps.map naluMarshal) (r.pps.map naluMarshal) ext) = ok r := by
+  simp only [Spec.Avc.record, ← record_is_spec_base r h hv]
+  exact record_roundtrip_tail r h _
+
+/-- Canonical round trip: marshalling what was unmarshalled from a conformant record reproduces it, for
+the profiles without the extension block. -/
+theorem canonical_record_rt (r : Record) (h : RecordWF r) (hv : r.version = 1)
+    (hprof : Spec.Avc.needsExt (UInt8.ofNat r.profile) = false) :
     let bs := Spec.Avc.record (UInt8.ofNat r.profile) r.compat r.level r.lsm1.toNat
-                (r.sps.map naluMarshal) (r.pps.map naluMarshal)
-    recordUnmarshal bs = ok r ∧ recordMarshal r = bs := by
-  intro bs
-  have e := record_is_spec r h hv
-  exact ⟨by show recordUnmarshal (Spec.Avc.record _ _ _ _ _ _) = _; rw [← e]; exact record_roundtrip r h, e⟩
+                (r.sps.map naluMarshal) (r.pps.map naluMarshal) none
+    recordUnmarshal bs = ok r ∧ recordMarshal r = bs :=
+  ⟨spec_record_read r h hv none, (record_is_spec_partial r h hv hprof).1⟩
 
 /-- The library's NAL unit bytes are the spec's (header = ref_idc·32 + type). -/
 theorem nalu_is_spec (n : Nalu) (h : n.WF) :
@@ -135,6 +186,11 @@ example : exNalu.WF := by decide
 example : RecordWF exRecord := by
   refine ⟨by decide, by decide, by decide, by decide, ?_, ?_⟩ <;>
     (intro x hx; simp [exRecord, exNalu] at hx; rcases hx with rfl | rfl <;> (unfold Nalu.Fits16 Nalu.WF; decide))
+example : Spec.Avc.needsExt (UInt8.ofNat exRecord.profile) = true := by decide  -- the example is a High-profile record
+example : Spec.Avc.ExtConformant 100 (some ⟨1, 0, 0, []⟩) ∧ Spec.Avc.ExtConformant 66 none := by
+  constructor <;> simp [Spec.Avc.ExtConformant, Spec.Avc.needsExt]
+example : Spec.Avc.record 100 0 31 3 [[0x67, 0x64]] [[0x68]] (some ⟨1, 0, 0, []⟩) =
+    [1, 100, 0, 31, 0xff, 0xe1, 0, 2, 0x67, 0x64, 1, 0, 1, 0x68, 0xfd, 0xf8, 0xf8, 0] := by decide
 example : recordMarshal exRecord =
     [1, 100, 0, 31, 0xff, 0xe1, 0, 4, 0x67, 0x42, 0, 0x1e, 2, 0, 2, 0x68, 0xce, 0, 1, 0x08] := by decide
 example : ∀ x ∈ [exNalu], x.WF ∧ 1 + x.data.length < 256 ^ 1 := by
